@@ -107,6 +107,8 @@ func c08prop(ev *evid.Rec) func(rt *rapid.T) {
 		own := rapid.IntRange(0, 3).Draw(rt, "ownroot") == 0
 		viaAlias := !storedInfo && !storedRsrc && len(name) < 200 && rapid.IntRange(0, 3).Draw(rt, "viaAlias") == 0
 		// how the client's bytes on the transfer connection are cut into segments ("" = one Write per message)
+		// between the grant and the transfer somebody may look at the downloader's client info, which lists the pending transfer
+		peek := rapid.IntRange(0, 3).Draw(rt, "peekAtPendingTransfer") == 0
 		seg := rapid.SampledFrom([]string{"", "", "random", "header", "bytes"}).Draw(rt, "segmentation")
 		segSeed := rapid.Uint64().Draw(rt, "segseed")
 		inWorld(rt, hlsim.Options{Agreement: "a", Accounts: []hlsim.AccountSpec{acct("admin", "Admin", "adminpw", allAccess)}}, func(rt *rapid.T, w *hlsim.World) {
@@ -174,6 +176,11 @@ func c08prop(ev *evid.Rec) func(rt *rapid.T) {
 			}
 			if hlref.U32(fsz) != size-k {
 				rt.Fatalf("%s: reply announces file size %d, remaining data is %d", ctx, hlref.U32(fsz), size-k)
+			}
+			if peek {
+				if ir := c.Request(hlref.TranGetClientInfoText, fld(hlref.FUserID, hlref.BE16(1))); !okReply(ir) {
+					rt.Fatalf("%s: client info of the downloader (pending transfer) refused: %s", ctx, replySummary(ir))
+				}
 			}
 			rx, _ := w.Transfer("10.0.0.1:2", ref, 0, nil, -1)
 			emptyMACR := hlref.ForkHeader("MACR", 0)
